@@ -22,3 +22,6 @@ Model/Api.vos Model/Api.vok Model/Api.required_vos: Model/Api.v Model/Match.vos
 Gen/Tables.vo Gen/Tables.glob Gen/Tables.v.beautified Gen/Tables.required_vo: Gen/Tables.v Model/Tables.vo
 Gen/Tables.vio: Gen/Tables.v Model/Tables.vio
 Gen/Tables.vos Gen/Tables.vok Gen/Tables.required_vos: Gen/Tables.v Model/Tables.vos
+Proofs/BytesFacts.vo Proofs/BytesFacts.glob Proofs/BytesFacts.v.beautified Proofs/BytesFacts.required_vo: Proofs/BytesFacts.v Model/Bytes.vo
+Proofs/BytesFacts.vio: Proofs/BytesFacts.v Model/Bytes.vio
+Proofs/BytesFacts.vos Proofs/BytesFacts.vok Proofs/BytesFacts.required_vos: Proofs/BytesFacts.v Model/Bytes.vos
